@@ -78,6 +78,23 @@ def _call_shape(prog, folder, call, env, skip_args=0):
             kws.append(k.arg)
         else:
             v = folder.fold(k.value, env, call)
+            if not isinstance(v, dict) and isinstance(k.value, ast.Name):
+                # a local assigned in several branches: pick the definition whose guards hold in this environment
+                from sa.cfg import expr_guards
+                fn = enclosing_fn(call)
+                if fn is not None:
+                    picks = []
+                    for st in ast.walk(fn.node):
+                        if isinstance(st, ast.Assign) and any(isinstance(t, ast.Name) and t.id == k.value.id for t in st.targets):
+                            ok = True
+                            for t, pol in expr_guards(st, stop=fn.node):
+                                tv = folder.fold(t, env, t)
+                                if tv is UNKNOWN or bool(tv) != pol:
+                                    ok = False
+                            if ok:
+                                picks.append(st.value)
+                    if len(picks) == 1:
+                        v = folder.fold(picks[0], env, picks[0])
             if isinstance(v, dict) and all(isinstance(x, str) for x in v):
                 kws.extend(v.keys())
             else:
@@ -224,7 +241,7 @@ def rule_call_dispatch(prog, rep, tier, anchor="conformance.ground_truth"):
         """env: name -> row value for names bound in fn."""
         ordinal = {}
         calls = sorted((c for c in ast.walk(fn.node) if isinstance(c, ast.Call)), key=lambda c: (c.lineno, c.col_offset))
-        fenv = {k: _py_value(v) for k, v in env.items() if _py_value(v) is not UNKNOWN}
+        fenv = {k: _py_value(v) for k, v in env.items() if not k.startswith("**") and _py_value(v) is not UNKNOWN}
         for c in calls:
             if isinstance(c.func, ast.Name) and c.func.id in env:
                 var = c.func.id
@@ -254,14 +271,22 @@ def rule_call_dispatch(prog, rep, tier, anchor="conformance.ground_truth"):
                 for t in prog.resolve_expr_fn(c.func, c):
                     if isinstance(t, FunctionInfo) and t is not fn:
                         a = t.node.args
-                        names = [x.arg for x in a.posonlyargs + a.args]
+                        names = [x.arg for x in a.posonlyargs + a.args + a.kwonlyargs]
                         sub = {}
                         for i, arg in enumerate(c.args):
                             if isinstance(arg, ast.Name) and arg.id in env and i < len(names):
                                 sub[names[i]] = env[arg.id]
                         for k in c.keywords:
                             if k.arg and isinstance(k.value, ast.Name) and k.value.id in env:
-                                sub[k.arg] = env[k.value.id]
+                                if k.arg in names:
+                                    sub[k.arg] = env[k.value.id]
+                                elif a.kwarg is not None:
+                                    sub.setdefault("**" + a.kwarg.arg, {})[k.arg] = env[k.value.id]
+                            elif k.arg is None and isinstance(k.value, ast.Name) and ("**" + k.value.id) in env:
+                                # f(**kwargs) forwarding a captured **kwargs
+                                for kk, vv in env["**" + k.value.id].items():
+                                    if kk in names:
+                                        sub[kk] = vv
                         if sub:
                             analyse(t, sub, rowkey, depth + 1, chain + [fn.qualname])
 
